@@ -180,6 +180,7 @@ class VTyped(VBase):
     """One field per annotation shape, for the runtime type check (C13)."""
 
     i: int = 0
+    j: int = 0
     f: float = 0.0
     s: str = ""
     b: bool = True
@@ -231,6 +232,10 @@ def make_origins() -> dict[str, Any]:
 
     ORIGINS["a_linecol"] = CodeOrigin(_SRC_A, get_code_range(1, 2, 7, 3, 2, 9))  # same indices, other line/column
     ORIGINS["a_file"] = CodeOrigin(FileSource(Path("srcA")), get_code_range(1, 1, 1, 3, 1, 3))  # other source class, same uri
+    from pyoak.origin import TextFileSource
+
+    ORIGINS["a_textfile"] = CodeOrigin(TextFileSource(Path("srcA")), get_code_range(1, 1, 1, 3, 1, 3))  # same source_type and uri as "a_file"
+    ORIGINS["multi_files"] = MultiOrigin([ORIGINS["a_file"], ORIGINS["a_textfile"]])
     ORIGINS["gen_as_code"] = CodeOrigin(_SRC_A, EMPTY_CODE_RANGE)  # same fields as "gen", other origin class
     ORIGINS["multi_linecol"] = MultiOrigin([ORIGINS["a_linecol"], ORIGINS["c"]])
     return ORIGINS
@@ -474,6 +479,33 @@ class VSer(VBase):
 
 
 CLASSES["VSer"] = VSer
+
+
+@dataclass(frozen=True)
+class VValidated(VBase):
+    """A node class with its own validation after the base initialisation."""
+
+    v: int = 0
+    note: str = field(default="", compare=False)
+    kid: VBase | None = None
+
+    def __post_init__(self) -> None:
+        super().__post_init__()
+        if self.note == "bad":
+            raise ValueError("rejected by the subclass")
+
+
+@dataclass(frozen=True)
+class VPascal(VBase):
+    """Field names that sort before the type key."""
+
+    Name: str = ""
+    Kid: VBase | None = None
+    Zed: int = 0
+
+
+CLASSES["VValidated"] = VValidated
+CLASSES["VPascal"] = VPascal
 
 
 # ------------------------------------------------ fault-injecting property (C16)
